@@ -1539,6 +1539,27 @@ func TestVerifC08Faults(t *testing.T) {
 						if recoveredAt >= 0 {
 							run.Count(fmt.Sprintf("located_after_%d_heartbeats", recoveredAt), 1)
 						} else {
+							// observation only (no verdict): how long does it last, and does the
+							// old node's cleanup of the abandoned connection end it?
+							extraHB, afterCleanup := 0, -1
+							c1, c2 := connOK, cloudOK
+							for ; extraHB < 5 && !(c1 && c2); extraHB++ {
+								w.heartbeat(cl)
+								c1, c2, _ = w.located(cl)
+							}
+							stillWrong := !(c1 && c2)
+							if stillWrong && len(cl.zombies) > 0 {
+								w.cleanup(cl, false)
+								for hb := 0; hb <= 2; hb++ {
+									if hb > 0 {
+										w.heartbeat(cl)
+									}
+									if a, b, _ := w.located(cl); a && b {
+										afterCleanup = hb
+										break
+									}
+								}
+							}
 							// the fault is injected above the backend, the outcome does not
 							// depend on it: the backend is in the detail, not in the signature
 							for _, v := range []struct {
@@ -1551,6 +1572,8 @@ func TestVerifC08Faults(t *testing.T) {
 								run.Violation(fmt.Sprintf("C08:fault|not-recovered|view=%s|failed=%s|scenario=%s", v.name, fired, scen), map[string]any{
 									"backend": be, "scenario": scen, "target": k, "failed_operation": fired, "handshake_accepted": accepted,
 									"heartbeats_after_fault": c08RecoveryHeartbeats, "answers": got,
+									"observed_still_wrong_after_heartbeats": c08RecoveryHeartbeats + extraHB, "observed_still_wrong": stillWrong,
+									"observed_located_after_old_connection_cleanup_plus_heartbeats": afterCleanup,
 									"expected": fmt.Sprintf("node=%q conn=%q", w.nodes[cl.cur.node].NodeID, cl.cur.id), "trace": w.tail(),
 								})
 							}
